@@ -381,6 +381,29 @@ def history_run(tdgl, a, tmp):
 
     dev = fresh_device(tdgl, a.get("dev", "tee"))
     dev.make_mesh(max_edge_length=a.get("mel", 1.0), smooth=0)
+    if a["history"] == "second-solve":
+        # two solve() calls on ONE TDGLSolver object: the frames of both runs are checked
+        from tdgl.solver.solver import TDGLSolver
+
+        work = tempfile.mkdtemp(prefix="runobs2", dir=tmp)
+        cwd = os.getcwd()
+        try:
+            os.chdir(work)
+            opts, kw = solve_args(tdgl, a, os.path.join(work, "out.h5"))
+            solver = TDGLSolver(dev, opts, **kw)
+            fr1 = read_frames(solver.solve().path)
+            fr2 = read_frames(solver.solve().path)
+        finally:
+            os.chdir(cwd)
+            shutil.rmtree(work, ignore_errors=True)
+        t1 = conservation_trace(dev, a, True, fr1, None)
+        t2 = conservation_trace(dev, a, True, fr2, None)
+        t2["ev"] = t1["ev"] + t2["ev"]
+        t2["worst_cell"] = max(t1["worst_cell"], t2["worst_cell"])
+        t2["worst_term"] = max(t1["worst_term"], t2["worst_term"])
+        t2["nframes"] += t1["nframes"]
+        t2["second_run_frames"] = len(fr2)
+        return t2
     a1 = dict(a, currents=a.get("currents_first", a["currents"]), solve_time=a.get("solve_time_first", 0.1))
     ok1, fr1, _, err1 = run_solver(tdgl, a1, tmp, dev=dev)
     t1 = conservation_trace(dev, a1, ok1, fr1, err1)
